@@ -10,7 +10,7 @@ jobs = int(sys.argv[sys.argv.index('--jobs') + 1]) if '--jobs' in sys.argv else 
 sys.argv = [sys.argv[0]]
 sys.path.insert(0, os.path.join(ROOT, 'tools'))
 src = open(os.path.join(ROOT, 'tools', 'seed_matrix.py')).read()
-ns = {}
+ns = {'os': os}
 exec(src[src.index('AREAS = '):src.index('def one(d):')], ns)
 bad = []
 
